@@ -367,6 +367,44 @@ Theorem C01_lib_agrees_with_C07_models : forall (app : value -> list value -> re
    (forall l1 l2, collect (Lib.Builtins.s_merge (fun a b => app f [a; b]) (of_list l1) l2) = merge_app app f l1 l2)).
 Proof. exact Lib.SemLibAgreeProofs.lib_agrees_lemma. Qed.
 
+(* the first-order string methods of the pool (trim toLower toUpper contains indexOf split cut replace toInt)
+   are the string functions of C07's implementation model; behind / behindList have no C07 model *)
+Theorem C01_string_pool_is_C07_string_model : forall (app : value -> list value -> res value) (s : str),
+  run_method app (VStr s) n_trim [] = bind (Sem.StrLib.str_trim s) (fun r => Ok (VStr r)) /\
+  run_method app (VStr s) n_toLower [] = bind (Sem.StrLib.str_lower s) (fun r => Ok (VStr r)) /\
+  run_method app (VStr s) n_toUpper [] = bind (Sem.StrLib.str_upper s) (fun r => Ok (VStr r)) /\
+  (forall p, run_method app (VStr s) n_contains [VStr p] = Ok (VBool (Sem.Ops.contains_str s p))) /\
+  (forall p, run_method app (VStr s) n_indexOf [VStr p] = Ok (VInt (Sem.StrLib.index_of s p 0))) /\
+  (forall p, run_method app (VStr s) n_split [VStr p] = Ok (VList (map VStr (Sem.StrLib.str_split s p)))) /\
+  (forall p n, run_method app (VStr s) n_cut [VInt p; VInt n] = Ok (VStr (Sem.StrLib.str_cut s p n))) /\
+  (forall o n, run_method app (VStr s) n_replace [VStr o; VStr n] = Ok (VStr (Sem.StrLib.str_replace s o n))) /\
+  run_method app (VStr s) n_toInt [] = Sem.StrLib.str_to_int s.
+Proof. exact Lib.SemLibAgreeProofs.str_pool_agrees. Qed.
+
+(* List.Visit is the loop of iterator.MapReduce as C07 models it, List.Set is C07's m_set *)
+Theorem C01_visit_set_agree_with_C07_models : forall (app : value -> list value -> res value) (f : value),
+  (forall l init, is_func f 2 = true ->
+     run_method app (VList l) n_visit [init; f]
+     = Lib.Builtins.t_fold (fun a b => app f [a; b]) init (Lib.Builtins.of_list l)) /\
+  (forall l i x, run_method app (VList l) n_set [VInt i; x]
+                 = bind (Lib.Builtins.m_set i x l) (fun r => Ok (VList r))).
+Proof. exact Lib.SemLibAgreeProofs.visit_set_agree. Qed.
+
+(* non-vacuity: the new built-ins compute, and a two-parameter closure satisfies is_func f 2 *)
+Example C01_new_builtins_compute :
+  run_method (fun _ _ => Unsup) (VStr [32; 97; 44; 98; 32]%N) n_trim [] = Ok (VStr [97; 44; 98]%N) /\
+  run_method (fun _ _ => Unsup) (VStr [97; 44; 98]%N) n_split [VStr [44]%N] = Ok (VList [VStr [97]%N; VStr [98]%N]) /\
+  run_method (fun _ _ => Unsup) (VStr [97; 233; 98]%N) n_indexOf [VStr [98]%N] = Ok (VInt 3) /\
+  run_method (fun _ _ => Unsup) (VStr [97; 233; 98]%N) n_toUpper [] = Unsup /\
+  run_method (fun _ _ => Unsup) (VStr [45; 49; 50]%N) n_toInt [] = Ok (VInt (-12)) /\
+  run_method (fun _ _ => Unsup) (VStr [49; 97]%N) n_toInt [] = Err None /\
+  run_method (fun _ _ => Unsup) (VStr [97]%N) n_cut [VStr [49]%N; VInt 1] = Err None /\
+  run_method (fun _ _ => Unsup) (VList [VInt 1; VInt 2]) n_set [VInt 1; VInt 9] = Ok (VList [VInt 1; VInt 9]) /\
+  run_method (fun _ _ => Unsup) (VList [VInt 1; VInt 2]) n_set [VInt 2; VInt 9] = Err None /\
+  is_func (VClo [[97]%N; [98]%N] (AIdent [97]%N) [] []) 2 = true /\
+  run_method (fun _ _ => Unsup) (VClo [[97]%N; [98]%N] (AIdent [97]%N) [] []) n_args [] = Ok (VInt 2).
+Proof. repeat split; vm_compute; reflexivity. Qed.
+
 
 (* canonical text, non-vacuity: the tree of the program above is spellable in the value configuration (by computation);
    its canonical text is  let k = 2 ; [ 1 , 2 , x ] . map ( e -> e * k + y ) . sum ( )  - the theorem applies and both
@@ -427,3 +465,5 @@ Print Assumptions C01_from_rendered_text.
 Print Assumptions C01_value_render_roundtrip.
 Print Assumptions C01_value_configuration_ok.
 Print Assumptions C01_lib_agrees_with_C07_models.
+Print Assumptions C01_string_pool_is_C07_string_model.
+Print Assumptions C01_visit_set_agree_with_C07_models.
